@@ -422,6 +422,56 @@ func (t *tr) bls(i int, rnd *choice.Src) {
 		t.add("thr.sig", g)
 		t.addf("thr.err", "%v", err)
 	}
+	// many distinct messages and keys (more pairings than one Miller-loop batch)
+	{
+		var ks []crypto.PublicKey
+		var ms [][]byte
+		var hs []hash.Hasher
+		var ss []crypto.Signature
+		for k := 0; k < 9; k++ {
+			sk, err := crypto.GeneratePrivateKey(crypto.BLSBLS12381, rnd.Bytes(32))
+			if err != nil {
+				continue
+			}
+			m := rnd.Bytes(5 + k)
+			s, _ := sk.Sign(m, h)
+			ks, ms, hs, ss = append(ks, sk.PublicKey()), append(ms, m), append(hs, h), append(ss, s)
+		}
+		if agg, err := crypto.AggregateBLSSignatures(ss); err == nil {
+			for _, cnt := range []int{7, 8, 9} {
+				a, _ := crypto.AggregateBLSSignatures(ss[:cnt])
+				ok, err := crypto.VerifyBLSSignatureManyMessages(ks[:cnt], a, ms[:cnt], hs[:cnt])
+				t.addf(fmt.Sprintf("many.%d", cnt), "%v %v", ok, err)
+			}
+			ok, err := crypto.VerifyBLSSignatureManyMessages(ks[:8], agg, ms[:8], hs[:8])
+			t.addf("many.wrongagg", "%v %v", ok, err)
+		}
+	}
+	// a large group with high signer indices and more than 8 shares (limb batching of the Lagrange code)
+	if i%3 == 0 {
+		bn, bt := 254, 9+rnd.Intn(4)
+		bsk, _, bgpk, err := crypto.BLSThresholdKeyGen(bn, bt, rnd.Bytes(32))
+		if err == nil {
+			t.add("bigthr.gpk", bgpk.Encode())
+			for _, first := range []int{bn - bt - 1, 0, 130} {
+				var sh []crypto.Signature
+				var who []int
+				for k := 0; k <= bt; k++ {
+					idx := (first + k) % bn
+					s, _ := bsk[idx].Sign(msg, h)
+					sh = append(sh, s)
+					who = append(who, idx)
+				}
+				g, err := crypto.BLSReconstructThresholdSignature(bn, bt, sh, who)
+				t.add(fmt.Sprintf("bigthr.sig.%d", first), g)
+				t.addf("bigthr.err", "%v", err)
+				ok, _ := bgpk.Verify(g, msg, h)
+				t.addf("bigthr.verify", "%v", ok)
+			}
+			t.add("bigthr.sk253", bsk[253].Encode())
+			t.add("bigthr.sk127", bsk[127].Encode())
+		}
+	}
 	t.end()
 }
 
